@@ -606,7 +606,7 @@ def _sym_for(E, node, st, bs, guard, ev, idx, n, invs, fname, ordinal):
     body_st = st.copy()
     havoc(body_st, "it")
     k = z3.Int(E.fresh_name("k"))
-    nn = z3.If(n < 0, 0, n)
+    nn = n if (z3.is_app(n) and n.decl().name() == "len") else z3.If(n < 0, 0, n)
     body_st.assume(z3.And(0 <= k, k < nn))
     for j, g in inv_goal(body_st, k):
         body_st.assume(g)
